@@ -9,6 +9,8 @@ Section WorldThm.
   Variable L : list param.
   Hypothesis Hwf : wf_plist L = true.
   Hypothesis Htriv : all_triv L = true.
+  (* copying additionally needs trivially COPY-constructible value types *)
+  Hypothesis Hcc : all_ctriv false L = true.
 
   (* the elements of [src] relocated into another block [m'] that agrees with the source
      on [0, data_end): same offsets, a table of [ncap] slots *)
@@ -52,7 +54,7 @@ Section WorldThm.
     Rep L d l /\ src' = src /\ v_aid d = soccc K (v_aid src) /\
     v_cap d = v_cap src /\ v_fixed d = v_fixed src /\ v_bid d = Some nb.
   Proof.
-    intros R. unfold copy_ctor. rewrite (insert_into_triv L Htriv). cbn [fst snd].
+    intros R. unfold copy_ctor. rewrite (insert_into_triv_gen L Htriv false _ _ _ _ Hcc). cbn [fst snd].
     repeat split; auto.
     apply relocate_rep; auto.
     - destruct R as [offs R]. exact (r_cap _ _ _ _ R).
@@ -68,7 +70,7 @@ Section WorldThm.
     v_cap d' = v_cap src /\ v_fixed d' = v_fixed src.
   Proof.
     intros R. unfold copy_assign. rewrite (Hdt L Htriv).
-    rewrite (insert_into_triv L Htriv). cbn [fst snd].
+    rewrite (insert_into_triv_gen L Htriv false _ _ _ _ Hcc). cbn [fst snd].
     repeat split; auto.
     apply relocate_rep; auto.
     - destruct R as [offs R]. exact (r_cap _ _ _ _ R).
@@ -316,7 +318,7 @@ Section Ledger.
         * unfold ids_ok in *. cbn. exact Hid.
     - unfold pop_back, destruct_elem. rewrite Hd. cbn [ledger].
       destruct (resize_blocks L v (vsize L v - 1)) as [H1 H2]. rewrite H1. auto.
-    - unfold erase, destruct_elem, move_forward. rewrite Hc, Hd. cbn [andb].
+    - unfold erase, destruct_elem, move_forward. rewrite Htriv, Hd.
       unfold move_forward_triv.
       destruct (has_varying L && _) eqn:Hg.
       + cbn [app ledger]. destruct (resize_blocks L v (vsize L v - 1)) as [H1 H2]. rewrite H1. auto.
@@ -327,7 +329,7 @@ Section Ledger.
         * match goal with |- context [resize L ?x ?n] => destruct (resize_blocks L x n) as [H1 H2] end.
           rewrite H1. split; [f_equal; apply blocks_of_same; reflexivity|].
           apply H2. unfold ids_ok in *. cbn. exact Hid.
-    - unfold erase_range, move_forward. rewrite Hc, Hd. cbn [andb].
+    - unfold erase_range, move_forward. rewrite Htriv, Hd.
       destruct ((j <? vsize L v) && negb (i =? j)).
       + unfold move_forward_triv. destruct (has_varying L && _) eqn:Hg.
         * cbn [app ledger]. match goal with |- context [resize L ?x ?n] => destruct (resize_blocks L x n) as [H1 H2] end. rewrite H1. auto.
